@@ -659,6 +659,21 @@ impl<T> Block for NoCopyFileSink<T>""")]),
     dict(name='d4r9+overwrite-no-truncate', prop='C17', expect='C17.R',
          patch="/verif/neutral_seeded/d4-r9/patch.diff", edits=[],
          post_edits=[E('src/file_sink.rs', 'Mode::Overwrite => opts.write(true).create(true).truncate(true),', 'Mode::Overwrite => opts.write(true).create(true),')]),
+    dict(name='e1r10+delay-owed-zeroed', prop='C08', expect='C08.R18',
+         patch="/verif/neutral_seeded/e1-r10/patch.diff", edits=[],
+         post_edits=[E('src/delay.rs', '                    self.current_delay -= n;', '                    self.current_delay = 0;')]),
+    dict(name='e2r10+helper-starts-from-empty-list', prop='C12', expect='C12.R6',
+         patch="/verif/neutral_seeded/e2-r10/patch.diff", edits=[],
+         post_edits=[E('src/burst_tagger.rs', '        let mut out: Vec<Tag> = incoming.to_vec();', '        let mut out: Vec<Tag> = Vec::new();')]),
+    dict(name='e3r10+settle-wait-inflated', prop='C04', expect='C04.R12',
+         patch="/verif/neutral_seeded/e3-r10/patch.diff", edits=[],
+         post_edits=[E('src/mtgraph.rs', '            stream_eof: stream.wait(need),', '            stream_eof: stream.wait(need.max(64)),')]),
+    dict(name='e3r10+finish-ignores-stream-eof', prop='C05', expect='C05.R',
+         patch="/verif/neutral_seeded/e3-r10/patch.diff", edits=[],
+         post_edits=[E('src/mtgraph.rs', '                if block_eof || stream_eof {', '                if block_eof {')]),
+    dict(name='e3r10+error-not-cancelled', prop='C07', expect='C07.R7',
+         patch="/verif/neutral_seeded/e3-r10/patch.diff", edits=[],
+         post_edits=[E('src/mtgraph.rs', '                cancel_token.cancel();\n                return Err(e);', '                return Err(e);')]),
     dict(name="m4r5+macro-no-take", prop="C08", expect="C08.R1:",
          patch="/verif/neutral_seeded/m4-r5/patch.diff", edits=[],
          post_edits=[E("rustradio_macros/src/lib.rs", "#zipped_inputs.take(n).enumerate()", "#zipped_inputs.enumerate()")]),
